@@ -1,8 +1,288 @@
 /-
-C10 — property theorems (under construction; see DESIGN.md section 8).
+C10 — Clean and persistent sessions.
+
+Property theorems only (helper lemmas: `Proofs/BrokerLife*.lean`).  Model:
+`Model/Broker.lean` — `first` (getSession / Session.Init / Update / start) and
+`stop`.  `Inv` is the representation invariant of the session bookkeeping
+(`Proofs/BrokerLifeInv.lean`): true initially, kept by every event, hence true
+of every state `(run {} evs).1`.
 -/
-import Mqtt.Model.Broker
-import Mqtt.Spec.Broker
+import Mqtt.Proofs.BrokerLifeTrie
 
 namespace Mqtt.Properties.C10
+open Mqtt.Iface.Broker Mqtt.Model.Broker Mqtt.Proofs.BrokerLife
+
+/-- The invariant used below holds in every reachable state. -/
+theorem C10_inv_reachable (evs : List Ev) : Inv (run {} evs).1 := inv_reachable evs
+
+/-! ### 1. SessionPresent -/
+
+/-- In an accepting `first`, the SessionPresent bit of the CONNACK is 1 exactly
+when the CONNECT has CleanSession=0 and a non-empty client identifier, and the
+store maps that identifier to a session object whose stored CleanSession is 0
+(state kept from an earlier CleanSession=0 connection). -/
+theorem C10_session_present (b : B) (c : Nat) (req : Connect) (authOk sp : Bool)
+    (h : Out.send c (.connack sp 0) ∈ (first b c (.connect req) authOk).2) :
+    sp = true ↔
+      req.clean = false ∧ req.clientId ≠ [] ∧
+      ∃ r s, b.storeGet req.clientId = some r ∧ b.getSess r = some s ∧ s.clean = false := by
+  have ha := (accepts_iff_emits b c (.connect req) authOk).mpr ⟨sp, h⟩
+  rw [first_accepted b c req authOk ha] at h
+  simp only [List.mem_singleton, Out.send.injEq, Packet.connack.injEq, and_true, true_and] at h
+  rw [h, accepted_sp, resumed_isSome_iff]
+
+/-- non-vacuity: "A" is filed from a CleanSession=0 connection, "B" from a
+CleanSession=1 connection, "C" is unknown: only A with CleanSession=0 gets
+SessionPresent=1. -/
+example :
+    let b := (run Ex.base2 [.close 1]).1
+    (first b 3 (.connect (Ex.conn Ex.idA false)) true).2 = [.send 3 (.connack true 0)] ∧
+    (first b 3 (.connect (Ex.conn Ex.idA true)) true).2 = [.send 3 (.connack false 0)] ∧
+    (first b 3 (.connect (Ex.conn Ex.idB false)) true).2 = [.send 3 (.connack false 0)] ∧
+    (first b 3 (.connect (Ex.conn [67] false)) true).2 = [.send 3 (.connack false 0)] := by decide
+
+/-! ### 2. CleanSession=1 starts from nothing -/
+
+/-- An accepted CONNECT with CleanSession=1 (or with an empty identifier, which
+forces it) is answered with SessionPresent=0 and served by a new session object
+(reference `b.nextRef`, which resolved to nothing before) with no subscriptions
+and no inbound QoS 2 state; the subscription tries are exactly those of before —
+nothing is subscribed for `c`. -/
+theorem C10_clean_starts_empty (b : B) (c : Nat) (req : Connect) (authOk : Bool)
+    (h : ∃ sp, Out.send c (.connack sp 0) ∈ (first b c (.connect req) authOk).2)
+    (hcl : req.clean = true ∨ req.clientId = []) :
+    (first b c (.connect req) authOk).2 = [.send c (.connack false 0)] ∧
+    (first b c (.connect req) authOk).1.topics = b.topics ∧
+    (∃ cn s, (first b c (.connect req) authOk).1.getConn c = some cn ∧ cn.alive = true ∧
+      (first b c (.connect req) authOk).1.getSess cn.sess = some s ∧
+      s.ref = b.nextRef ∧ s.clean = true ∧ s.topics = [] ∧ s.pub2in = []) ∧
+    (Inv b → b.getSess b.nextRef = none) := by
+  have ha := (accepts_iff_emits b c (.connect req) authOk).mpr h
+  have hec : effClean req = true := by
+    unfold effClean
+    rcases hcl with h1 | h1
+    · simp [h1]
+    · simp [h1]
+  have hres := resumed_none_of_clean b c req hec
+  obtain ⟨h1, h2, h3⟩ := accepted_fresh b c req hres
+  rw [first_accepted b c req authOk ha]
+  refine ⟨by rw [h2], by rw [h1]; rfl, ?_, fun hi => hi.fresh _ (Nat.le_refl _)⟩
+  refine ⟨_, _, accepted_getConn b c req, rfl, accepted_getSess b c req, ?_⟩
+  rw [h3]
+  exact ⟨rfl, hec, rfl, rfl⟩
+
+/-- non-vacuity: "A" has a filed session with two subscriptions; a CONNECT of
+"A" with CleanSession=1 gets a new object without any. -/
+example :
+    let b := (run Ex.base2 [.close 1]).1
+    let b' := (first b 3 (.connect (Ex.conn Ex.idA true)) true).1
+    (b.getSess 1).map (·.topics) = some [(Ex.tW, 2), (Ex.tAB, 1)] ∧ b.storeGet Ex.idA = some 1 ∧
+    b'.storeGet Ex.idA = some 3 ∧ (b'.getSess 3).map (fun s => (s.topics, s.clean)) = some ([], true) ∧
+    b'.topics.subscribers Ex.tAB 1 = some [(2, 0)] := by decide
+
+/-! ### 3. nothing of a clean session survives its end -/
+
+/-- When a connection with a clean session ends (`stop`: any cause; a
+DISCONNECT packet ends in `stop` too), the store no longer maps its client
+identifier, and no store entry refers to its session object any more: no later
+CONNECT can reach it. -/
+theorem C10_clean_discarded (b : B) (hi : Inv b) (c : Nat) (cn : Conn) (s : Sess)
+    (hc : b.getConn c = some cn) (ha : cn.alive = true) (hs : b.getSess cn.sess = some s)
+    (hcl : s.clean = true) :
+    (stop b c).1.storeGet s.cid = none ∧ ∀ p ∈ (stop b c).1.store, p.2 ≠ s.ref :=
+  stop_clean_discarded hi c cn s hc ha hs hcl
+
+/-- the same without the invariant, for a session whose will flag comes with a will message -/
+theorem C10_clean_discarded_any_state (b : B) (c : Nat) (cn : Conn) (s : Sess)
+    (hc : b.getConn c = some cn) (ha : cn.alive = true) (hs : b.getSess cn.sess = some s)
+    (hcl : s.clean = true) (hw : s.willFlag = true → s.will.isSome = true) :
+    (stop b c).1.storeGet s.cid = none := by
+  have hst := stop_store b c cn s hc ha hs hw
+  simp only [hcl, ↓reduceIte] at hst
+  unfold B.storeGet; rw [hst]; exact lookup_filter_self _ _
+
+/-- DISCONNECT on a clean session discards it as well. -/
+theorem C10_clean_discarded_disconnect (b : B) (hi : Inv b) (c : Nat) (cn : Conn) (s : Sess)
+    (hc : b.getConn c = some cn) (ha : cn.alive = true) (hs : b.getSess cn.sess = some s)
+    (hcl : s.clean = true) :
+    (packet b c .disconnect).1.storeGet s.cid = none := by
+  rw [packet_disconnect_eq b c cn s hc ha hs]
+  have hr : s.ref = cn.sess := getSess_ref hs
+  have hi' : Inv (b.setSess { s with willFlag := false }) :=
+    inv_setSess (s := s) (s' := { s with willFlag := false }) hi hs hr rfl (fun hf => by cases hf)
+  have hs' : (b.setSess { s with willFlag := false }).getSess cn.sess = some { s with willFlag := false } := by
+    rw [← hr]; exact getSess_setSess b { s with willFlag := false }
+  exact (stop_clean_discarded hi' c cn _ (by exact hc) ha hs' hcl).1
+
+/-- A persistent session (CleanSession=0) stays filed when its connection ends,
+with its subscriptions and inbound QoS 2 state. -/
+theorem C10_persistent_kept (b : B) (hi : Inv b) (c : Nat) (cn : Conn) (s : Sess)
+    (hc : b.getConn c = some cn) (ha : cn.alive = true) (hs : b.getSess cn.sess = some s)
+    (hcl : s.clean = false) :
+    (stop b c).1.store = b.store ∧
+    ∃ s', (stop b c).1.getSess s.ref = some s' ∧ s'.cid = s.cid ∧ s'.clean = false ∧
+      s'.topics = s.topics ∧ s'.pub2in = s.pub2in := by
+  refine ⟨stop_persistent_kept hi c cn s hc ha hs hcl, ?_⟩
+  obtain ⟨s', h1, h2, h3, h4, h5, _⟩ := stop_sess b c cn s hc ha hs
+  exact ⟨s', h1, h2, h3.trans hcl, h4, h5⟩
+
+/-- non-vacuity: connection 2 (client "B", clean) drops: "B" is gone from the
+store; connection 1 (client "A", persistent) drops: "A" stays with its topics. -/
+example :
+    Ex.base2.storeGet Ex.idB = some 2 ∧ (stop Ex.base2 2).1.storeGet Ex.idB = none ∧
+    (stop Ex.base2 1).1.storeGet Ex.idA = some 1 ∧
+    ((stop Ex.base2 1).1.getSess 1).map (·.topics) = some [(Ex.tW, 2), (Ex.tAB, 1)] := by decide
+
+/-! ### 4. a resumed session is subscribed again at once -/
+
+/-- After an accepted CONNECT answered with SessionPresent=1 the session object
+`s` that the store held for the identifier serves the new connection — same
+subscription list (filters and QoS), same inbound QoS 2 state — and the topic
+store of the resulting state is `resubscribe` of that list for `c`: each
+`(filter, qos)` of the kept session has been passed to the tries' `Subscribe`
+for the new connection before `first` returns, hence before any later event. -/
+theorem C10_resume_resubscribes (b : B) (c : Nat) (req : Connect) (authOk : Bool)
+    (h : Out.send c (.connack true 0) ∈ (first b c (.connect req) authOk).2) :
+    ∃ s, b.storeGet req.clientId = some s.ref ∧ b.getSess s.ref = some s ∧
+      (first b c (.connect req) authOk).1.topics = resubscribe b.topics c s.topics ∧
+      ∃ cn s', (first b c (.connect req) authOk).1.getConn c = some cn ∧ cn.alive = true ∧ cn.sess = s.ref ∧
+        (first b c (.connect req) authOk).1.getSess s.ref = some s' ∧
+        s'.topics = s.topics ∧ s'.pub2in = s.pub2in ∧ s'.cid = s.cid := by
+  have ha := (accepts_iff_emits b c (.connect req) authOk).mpr ⟨true, h⟩
+  rw [first_accepted b c req authOk ha] at h ⊢
+  simp only [List.mem_singleton, Out.send.injEq, Packet.connack.injEq, and_true, true_and] at h
+  cases hres : resumed b c req with
+  | none => rw [accepted_sp, hres] at h; cases h
+  | some s =>
+    obtain ⟨_, hst, hs, _⟩ := resumed_some hres
+    have hid : effCid c req = req.clientId := by
+      have := (resumed_isSome_iff b c req).mp (by rw [hres]; rfl)
+      unfold effCid
+      cases hc : req.clientId with
+      | nil => exact absurd hc this.2.1
+      | cons _ _ => rfl
+    obtain ⟨h1, _, h3⟩ := accepted_resumed b c req s hres
+    have hg := accepted_getSess b c req
+    rw [h3] at hg
+    have hgc := accepted_getConn b c req
+    rw [h3] at hgc
+    exact ⟨s, hid ▸ hst, hs, by rw [h1], { id := c, sess := s.ref, alive := true }, updSess s req, hgc, rfl, rfl,
+      hg, rfl, rfl, rfl⟩
+
+/-- `resubscribe` is the list of tree-subscribe calls, in order. -/
+theorem C10_resubscribe_unfold (ts : Mqtt.Model.Topics.MemTopics) (c : Nat) (t : Bytes) (q : Nat)
+    (rest : List (Bytes × Nat)) :
+    resubscribe ts c [] = ts ∧
+    resubscribe ts c ((t, q) :: rest) = resubscribe (ts.subscribe Generated.maxQosAllowed t q c).1 c rest :=
+  ⟨rfl, rfl⟩
+
+/-- non-vacuity: "A" returns as connection 3 with CleanSession=0: SessionPresent=1,
+and without any SUBSCRIBE a publish to a/b at QoS 1 reaches 3 (granted QoS 1, as
+before) besides 2, and "w" reaches 3 at QoS 2. -/
+example :
+    let b := (run Ex.base2 [.close 1]).1
+    let b' := (first b 3 (.connect (Ex.conn Ex.idA false)) true).1
+    (first b 3 (.connect (Ex.conn Ex.idA false)) true).2 = [.send 3 (.connack true 0)] ∧
+    b.topics.subscribers Ex.tAB 1 = some [(2, 0)] ∧
+    b'.topics.subscribers Ex.tAB 1 = some [(2, 0), (3, 1)] ∧
+    b'.topics.subscribers Ex.tW 2 = some [(2, 1), (1000, 0), (3, 2)] := by decide
+
+/-! ### 5. sessions are keyed by client identifier only -/
+
+/-- An accepting `first` whose identifier in force is X (`effCid`: the CONNECT's
+identifier, or the generated one for an empty identifier) changes neither the
+store entry of any other identifier Y nor the session object filed under Y — its
+subscriptions, queue, will and flags are untouched. -/
+theorem C10_keyed_by_id (b : B) (hi : Inv b) (c : Nat) (req : Connect) (authOk : Bool) (y : Bytes)
+    (h : ∃ sp, Out.send c (.connack sp 0) ∈ (first b c (.connect req) authOk).2)
+    (hy : y ≠ effCid c req) :
+    (first b c (.connect req) authOk).1.storeGet y = b.storeGet y ∧
+    ∀ r, b.storeGet y = some r → (first b c (.connect req) authOk).1.getSess r = b.getSess r := by
+  have ha := (accepts_iff_emits b c (.connect req) authOk).mpr h
+  rw [first_accepted b c req authOk ha]
+  exact accepted_other_id hi c req y hy
+
+/-- the identifier in force is the CONNECT's own whenever that is not empty -/
+theorem C10_effCid (c : Nat) (req : Connect) (h : req.clientId ≠ []) : effCid c req = req.clientId := by
+  unfold effCid
+  cases hc : req.clientId with
+  | nil => exact absurd hc h
+  | cons _ _ => rfl
+
+/-- non-vacuity: "A" reconnects (resuming): the session object filed under "B"
+is the same as before, subscriptions included. -/
+example :
+    let b := (run Ex.base2 [.close 1]).1
+    let b' := (first b 3 (.connect (Ex.conn Ex.idA false)) true).1
+    b'.storeGet Ex.idB = some 2 ∧
+    (b'.getSess 2).map (·.topics) = some [(Ex.tW, 1), (Ex.tAB, 0)] ∧
+    (b.getSess 2).map (·.topics) = some [(Ex.tW, 1), (Ex.tAB, 0)] := by decide
+
+/-! ### 6. the resumed subscriptions, seen in the subscription trie (with the C06 theorems) -/
+
+/-- In every reachable state the subscription trie is well-formed (unique map
+keys, `Proofs.Topics.WF`) — the hypothesis of the C06 trie theorems. -/
+theorem C10_trie_wf_reachable (evs : List Ev) : Mqtt.Proofs.Topics.WF (run {} evs).1.topics.sroot :=
+  trieWF_reachable evs
+
+/-- After an accepted CONNECT answered with SessionPresent=1, every entry
+`(filter, qos)` of the kept session's topic list that the tries accept (QoS ≤ 2,
+`nextTopicLevel` parses the filter), and whose level path is not shared with
+another entry of the list, is held in the trie for the new connection `c` at its
+granted QoS (`abs`: the entries of the trie).  Consequently (C06_smatch_char)
+the subscriber lookup for every name whose levels the filter path matches
+returns `c` with QoS min(publish QoS, granted QoS) — without any SUBSCRIBE on
+the new connection. -/
+theorem C10_resume_trie (b : B) (hwf : Mqtt.Proofs.Topics.WF b.topics.sroot) (c : Nat) (req : Connect)
+    (authOk : Bool) (h : Out.send c (.connack true 0) ∈ (first b c (.connect req) authOk).2) :
+    ∃ s, b.storeGet req.clientId = some s.ref ∧ b.getSess s.ref = some s ∧
+      Mqtt.Proofs.Topics.WF (first b c (.connect req) authOk).1.topics.sroot ∧
+      (s.topics.Pairwise (fun p p' => (Mqtt.Model.Topics.levels p.1).1 ≠ (Mqtt.Model.Topics.levels p'.1).1) →
+        ∀ p ∈ s.topics, Mqtt.Model.Topics.validQos p.2 = true → (Mqtt.Model.Topics.levels p.1).2 = true →
+          ((Mqtt.Model.Topics.levels p.1).1, c, grant Generated.maxQosAllowed p.2) ∈
+            Mqtt.Proofs.Topics.abs (first b c (.connect req) authOk).1.topics.sroot ∧
+          ∀ (ns : List Mqtt.Model.Topics.Level) (q : Nat),
+            Mqtt.Proofs.Topics.walk (Mqtt.Model.Topics.levels p.1).1 ns = true →
+            ∃ r, (first b c (.connect req) authOk).1.topics.sroot.smatchL ns true q = some r ∧
+              (c, min q (grant Generated.maxQosAllowed p.2)) ∈ r) := by
+  obtain ⟨s, h1, h2, h3, _⟩ := C10_resume_resubscribes b c req authOk h
+  have hwf' : Mqtt.Proofs.Topics.WF (first b c (.connect req) authOk).1.topics.sroot := by
+    rw [h3]; exact resubscribe_WF c s.topics b.topics hwf
+  refine ⟨s, h1, h2, hwf', ?_⟩
+  intro hpw p hp hq hl
+  have hm : ((Mqtt.Model.Topics.levels p.1).1, c, grant Generated.maxQosAllowed p.2) ∈
+      Mqtt.Proofs.Topics.abs (first b c (.connect req) authOk).1.topics.sroot := by
+    rw [h3]; exact resubscribe_holds c s.topics b.topics hwf hpw p hp ⟨hq, hl⟩
+  refine ⟨hm, ?_⟩
+  intro ns q hwalk
+  obtain ⟨r, hr, hperm⟩ := Mqtt.Proofs.Topics.smatch_char _ ns q hwf'
+  refine ⟨r, hr, hperm.mem_iff.mpr ?_⟩
+  rw [List.mem_filterMap]
+  exact ⟨_, hm, by simp [hwalk]⟩
+
+/-- the granted QoS is the requested one for QoS ≤ 2 (`Generated.maxQosAllowed` = 2) -/
+theorem C10_grant (q : Nat) (h : Mqtt.Model.Topics.validQos q = true) : grant Generated.maxQosAllowed q = q := by
+  unfold grant Generated.maxQosAllowed
+  simp only [Mqtt.Model.Topics.validQos, Bool.or_eq_true, beq_iff_eq] at h
+  split
+  · omega
+  · rfl
+
+/-- the regenerated constants the session code uses are the specification's -/
+theorem C10_facts : Generated.maxQosAllowed = Spec.Broker.maxQos ∧ Model.Broker.cbBase = Spec.Broker.cbBase :=
+  ⟨rfl, rfl⟩
+
+/-- non-vacuity: the kept session of "A" holds ("w", 2) and ("a/b", 1): both
+subscribable, different paths; after the resume both entries are in the trie
+for connection 3. -/
+example :
+    let b := (run Ex.base2 [.close 1]).1
+    let b' := (first b 3 (.connect (Ex.conn Ex.idA false)) true).1
+    (b.getSess 1).map (·.topics) = some [(Ex.tW, 2), (Ex.tAB, 1)] ∧
+    Mqtt.Model.Topics.levels Ex.tW = ([[119]], true) ∧ Mqtt.Model.Topics.levels Ex.tAB = ([[97], [98]], true) ∧
+    Mqtt.Proofs.Topics.abs b.topics.sroot = [([[97], [98]], 2, 0), ([[119]], 2, 1), ([[119]], 1000, 0)] ∧
+    Mqtt.Proofs.Topics.abs b'.topics.sroot =
+      [([[97], [98]], 2, 0), ([[97], [98]], 3, 1), ([[119]], 2, 1), ([[119]], 1000, 0), ([[119]], 3, 2)] := by
+  decide
+
 end Mqtt.Properties.C10
